@@ -246,7 +246,8 @@ def request_facts(case):
     if marked is None:
         marked = bool(MARKER_RX.search(text))
     return dict(arch_given=case.get("arch") is not None, lines_given=case.get("lines") is not None,
-                marked=marked, n_parsed=nonblank, ignore_unknown=bool(case.get("ignore_unknown")))
+                marked=marked, n_parsed=nonblank, ignore_unknown=bool(case.get("ignore_unknown")),
+                must_x=list(case.get("must_x") or []))
 
 
 def isa_counts(text):
